@@ -8,9 +8,12 @@
 #include <string.h>
 
 static const size_t kDistQuick[] = {0, 1, 2, 15, 16, 17, 31, 32, 33, 64};
+static const size_t kDistFew[] = {0, 1, 16, 31, 32, 64};
 
 static size_t pick_dist(long all, const char* name) {
-  if (all) { size_t d = verif_concrete(verif_range(0, 35, name)); return d == 35 ? 64 : d; }
+  if (all == 1) { size_t d = verif_concrete(verif_range(0, 35, name)); return d == 35 ? 64 : d; }
+  if (all == 2) return kDistFew[verif_concrete(verif_range(0, 5, name))];
+  if (all == 3) return 64;
   return kDistQuick[verif_concrete(verif_range(0, 9, name))];
 }
 
